@@ -25,6 +25,9 @@ FORMATS = {
     "requirements": {"level": "byte", "files": ["Formats/Requirements.v", "Formats/RequirementsProofs.v"],
                      "theorems": ["requirements_roundtrip_on_D", "requirements_roundtrip_refuted"], "full_spec": True,
                      "what": "requirements.txt (pinned name==version sub-grammar; full statement REFUTED for dotted / one-letter names, theorem on domain D, see KNOWN_FINDINGS.d/C03.json)"},
+    "gomodb": {"level": "byte", "files": ["Formats/GoModBytes.v", "Formats/GoModBytesProofs.v"], "theorems": ["gomod_bytes_roundtrip"], "modelled": True,
+               "what": "go.mod from bytes (line-oriented sub-grammar of x/mod/modfile: lines, blocks, comments, CRLF; modfile's token "
+                       "validation is an oracle table; quoted strings etc. are reported as not modelled)"},
     "composer": {"level": "struct", "files": ["Formats/Structs.v", "Formats/StructsProofs.v"], "theorems": ["composer_struct_exact"], "what": "composer.lock"},
     "cargo": {"level": "struct", "files": [], "theorems": ["cargo_struct_exact"], "what": "Cargo.lock"},
     "poetry": {"level": "struct", "files": [], "theorems": ["poetry_struct_exact"], "what": "poetry.lock"},
@@ -81,6 +84,8 @@ def trailer(fmt, name):
     extra = ""
     if FORMATS.get(fmt, {}).get("full_spec"):
         extra = "Definition full_bad := Eval vm_compute in bad_indices %s_case_full_spec_ok %s 0.\nPrint full_bad.\n" % (p, name)
+    if FORMATS.get(fmt, {}).get("modelled"):
+        extra += "Definition modelled := Eval vm_compute in [length (filter %s_case_modelled %s)].\nPrint modelled.\n" % (p, name)
     return extra + (
         "Definition render_bad := Eval vm_compute in bad_indices %s_case_render_ok %s 0.\nPrint render_bad.\n"
         "Definition corr_bad := Eval vm_compute in bad_indices %s_case_model_ok %s 0.\nPrint corr_bad.\n"
@@ -108,16 +113,19 @@ def run_all_shards(ctx, fmts, d):
             raise RuntimeError("cases shard %s/%d failed: %s" % (fmt, k, out[-1500:]))
         off = k * PER
         full = vlib.parse_printed_list(out, "full_bad") or []
-        return fmt, [off + i for i in res[0]], [off + i for i in res[1]], [off + i for i in res[2]], res[3][0], [off + i for i in full]
+        mod = vlib.parse_printed_list(out, "modelled")
+        return fmt, [off + i for i in res[0]], [off + i for i in res[1]], [off + i for i in res[2]], res[3][0], [off + i for i in full], (mod[0] if mod else None)
 
-    acc = {fmt: [[], [], [], 0, []] for fmt in fmts}
+    acc = {fmt: [[], [], [], 0, [], None] for fmt in fmts}
     with ThreadPoolExecutor(max_workers=14) as ex:
-        for fmt, a, b, c, n, f in ex.map(one, tasks):
+        for fmt, a, b, c, n, f, m in ex.map(one, tasks):
             acc[fmt][0] += a
             acc[fmt][1] += b
             acc[fmt][2] += c
             acc[fmt][3] += n
             acc[fmt][4] += f
+            if m is not None:
+                acc[fmt][5] = (acc[fmt][5] or 0) + m
     return acc
 
 
@@ -202,7 +210,7 @@ def run(ctx):
         return
     d = os.path.join(vlib.BUILD, "cases", "C03")
     os.makedirs(d, exist_ok=True)
-    sizes = {"byte": (1500, 500), "struct": (1000, 300)} if ctx.tier == "thorough" else {"byte": (150, 45), "struct": (100, 30)}
+    sizes = {"byte": (1500, 500), "struct": (1000, 300)} if ctx.tier == "thorough" else {"byte": (120, 36), "struct": (90, 27)}
     for level, (n, mal) in sizes.items():
         fmts = [f for f, v in FORMATS.items() if v["level"] == level]
         if not fmts:
@@ -251,7 +259,7 @@ def run(ctx):
     for fmt, info in FORMATS.items():
         side = os.path.join(d, "C03_%s.jsonl" % fmt)
         cases = [json.loads(l) for l in open(side)]
-        rb, cb, sb, claimed, fb = shard_res[fmt]
+        rb, cb, sb, claimed, fb, n_modelled = shard_res[fmt]
         # full-strength statement failing on a well-formed file outside D: must be an instance of a listed known finding
         known_hits = {}
         for i in fb:
@@ -293,6 +301,8 @@ def run(ctx):
                            "distinct_nontrivial": nt, "streams": streams, "boundary_tags": tags, "records_per_file": rsizes,
                            "observed_outcomes": outcomes, "render_mismatch": len(rb), "corr_bad": len(cb), "spec_bad": len(sb),
                            "wellformed_outside_D_failing_full_statement": len(fb), "known_finding_instances": known_hits}
+        if n_modelled is not None:
+            per_format[fmt]["inside_modelled_subgrammar"] = n_modelled
         evals += len(cases)
         ctx.log("%s: cases=%d claimed=%d render_bad=%d corr_bad=%d spec_bad=%d" % (fmt, len(cases), claimed, len(rb), len(cb), len(sb)))
     samples = []
